@@ -5,7 +5,9 @@
 // Emits StateMachine.v (validStates, validTransitions, validateClaimInvariant as tables), Consts.v
 // (string / integer constants the model transcribes) and Skeleton.v (per function: the lock / load /
 // write / raw-file-system / call effects in source order, closures passed to withLock nested) and
-// ReplayGen.v (replay_ir.go: replayEvents / applyTombstone as the statement IR of bridge/ReplayIR.v).
+// ReplayGen.v (replay_ir.go: replayEvents / applyTombstone as the statement IR of bridge/ReplayIR.v),
+// ReadyGen.v (ready_ir.go: isReady / isBlocked / epic completeness / list filters and comparisons) and
+// CompactGen.v (compact_ir.go: compactEvents as the emission IR of bridge/CompactIR.v).
 // Only go/parser + go/ast are used; anything outside the accepted fragment is a fatal error.
 package main
 
@@ -799,5 +801,7 @@ func main() {
 	write("StateMachine.v", sm.String())
 	write("Consts.v", cs.String())
 	write("Skeleton.v", sk.String())
-	write("ReplayGen.v", genReplay(fset, files)) // replay_ir.go
+	write("ReplayGen.v", genReplay(fset, files))     // replay_ir.go
+	write("ReadyGen.v", genReadyIR(fset, files))     // ready_ir.go
+	write("CompactGen.v", genCompactIR(fset, files)) // compact_ir.go
 }
